@@ -61,7 +61,7 @@ CHECKS.update({
                "Lean 4 proof over the encoder model + framing theorem + byte-exact differential correspondence + independent grammar recogniser and wire-value oracle", "6/C05"),
     "C06": chk("Proof on a decidable domain, correspondence outside it. Value and field level: unsigned/signed/string/time/coordinate round trips through the real writeField and applyField with the definition Encode writes; message level: message_roundtrip; File level: decode_encode_content — for every File with fileRTB (12- or 14-byte header, every written field an unsigned or signed scalar, string, date_time, coordinate, or array of unsigned, signed or byte elements in range no longer than the profile length; fields a slice's union definition carries for a message that leaves them unset may be scalars, the empty string, date_times, coordinates or nil arrays) and of the typed API's shape (fileShapeB) that Encode accepts, in either byte order, Decode of the bytes (followed by anything, any reader, options and package state) succeeds and returns the same file_id, file_creator, timestamp_correlation and container and, slot by slot, the File's own messages in order, each with the array fields its record carries padded with the base type's invalid value to the profile length (wireFile / padVal_spec: the normal form of 'compared up to trailing invalid padding') and passed through expandComponents where its type has component fields, accumulators threaded in file order; decode_encode_identity — without component-bearing types exactly the padded slots. A kernel-evaluated six-message example (12- and 14-byte headers, both byte orders, union definitions with invalid fillers, a short array, nil arrays as fillers) shows the premises are satisfiable and what comes back. Outside the domain (string arrays, which Encode refuses; local times; times in a zone other than UTC) the property is decided by the correspondence run (real Encode then real Decode under the property's equivalence)." + CORR,
                "Lean 4 proof of codec inverses lifted to fields, messages and whole Files (replay of File.add) + differential round-trip correspondence with equivalence oracle", "6/C06"),
-    "C07": chk("Proof of the no-panic clause, recorded finding for the no-failure clause, run for the rest. reencode_never_panics: for every input, read schedule, option set, package state and byte order, Encode of the File a successful Decode returned does not panic — decoded_file_typed (every message of a decoded File is of a known type, every struct field holds a value of its Go type, every container field holds messages of its element type, and the attached container is the one the file type selects; an invariant of the decoder proved through every parser of the record phase, FitProofs/Typed*.lean) and encode_no_panic (Encode cannot panic on a well-typed File). reencode_counterexample_utf8 (known finding D13: a stream Decode accepts and Encode rejects). That the re-encoded bytes pass CheckIntegrity, decode to the same content and that the second round trip is a fixpoint is proved for Files in C06's decidable domain and otherwise checked on every run over every accepted input with a generation-1/2/3 oracle." + CORR,
+    "C07": chk("Proof of the no-panic clause, recorded finding for the no-failure clause, run for the rest. reencode_never_panics: for every input, read schedule, option set, package state and byte order, Encode of the File a successful Decode returned does not panic — decoded_file_typed (every message of a decoded File is of a known type, every struct field holds a value of its Go type, every container field holds messages of its element type, and the attached container is the one the file type selects; an invariant of the decoder proved through every parser of the record phase, FitProofs/Typed*.lean) and encode_no_panic (Encode cannot panic on a well-typed File). reencode_counterexample_utf8 (known finding D13: a stream Decode accepts and Encode rejects). second_trip_fixpoint: for a File in C06's decidable domain without component-bearing messages, the File F1 that Decode(Encode f) returns is a fixed point of the trip — re-encoded in either byte order, if Encode accepts it, Decode succeeds and returns the same file_id, file_creator, timestamp_correlation, container and slots (the domain is closed under the trip, padding to the profile length is idempotent under the slice's own definition). second_trip_total: and Encode does accept F1 in every byte order — no panic because decoded Files are well typed, no error because writeField refuses no value of the domain (encode_no_error); a kernel-evaluated example runs both trips. That the re-encoded bytes pass CheckIntegrity and decode to the same content is proved for Files in C06's decidable domain (C05/C06); all of it is otherwise checked on every run over every accepted input with a generation-1/2/3 oracle." + CORR,
                "Lean 4 proof (typing invariant of the decoder + no-panic of the encoder) + counterexample theorem + three-generation re-encode correspondence", "6/C07"),
 })
 
